@@ -207,6 +207,15 @@ Proof.
   induction ch as [|x r IHr]; constructor; [apply IH|apply IHr].
 Qed.
 
+Lemma dot_children_const k ch ch0 : all_const ch0 = true -> all_const (dot_children k ch ch0) = true.
+Proof.
+  intros H. unfold dot_children. destruct k; try exact H.
+  destruct ch as [|rl [|rr [|z zs]]]; try exact H.
+  destruct ch0 as [|ol [|[rk rcls rtext rloc rc rch] [|z zs]]]; try exact H.
+  destruct ((kind_eqb rk KFun_Call || kind_eqb rk KArray_Call) && _ && _); [|exact H].
+  unfold all_const in *. cbn [forallb] in *. rewrite consts_const_unfold in *. exact H.
+Qed.
+
 Theorem optimize_tree_const ops fc order : forall n, consts_const n = true -> consts_const (optimize_tree ops fc order n) = true.
 Proof.
   induction n as [k cls text l c ch IH] using ast_ind'. intros H.
@@ -214,10 +223,10 @@ Proof.
   { rewrite consts_const_unfold in H. apply andb_prop in H. destruct H as [_ Hc].
     unfold all_const in *. rewrite forallb_forall in Hc. apply forallb_forall. intros y Hy.
     apply in_map_iff in Hy. destruct Hy as (x & <- & Hx). rewrite Forall_forall in IH. apply IH; auto. }
-  assert (Hnode : forall l', consts_const (optimize_node ops fc order (Node k cls text l' c (map (optimize_tree ops fc order) ch))) = true).
-  { intros l'. apply optimize_node_const. rewrite consts_const_unfold in *. apply andb_prop in H. destruct H as [Hf _]. rewrite Hf, Hch. reflexivity. }
+  assert (Hnode : forall l' chs, all_const chs = true -> consts_const (optimize_node ops fc order (Node k cls text l' c chs)) = true).
+  { intros l' chs Hc. apply optimize_node_const. rewrite consts_const_unfold in *. apply andb_prop in H. destruct H as [Hf _]. rewrite Hf, Hc. reflexivity. }
   cbn [optimize_tree].
   destruct ch as [|x r].
-  - destruct k; try apply Hnode; exact H.
-  - apply Hnode.
+  - destruct k; try (apply Hnode; apply dot_children_const; exact Hch); exact H.
+  - apply Hnode. apply dot_children_const. exact Hch.
 Qed.
